@@ -55,7 +55,7 @@ PROPS["C08"] = dict(
           "counts as one evaluation. Non-trivial = input that differs from the well-formed stream and that the reference rejects; distinct by SHA-256 of the input."),
     assumptions=["ref/esl reference decoder"],
     exhaustive_note="every truncation point of each 'AllCuts' stream (class every_truncation_point)",
-    quick=dict(checks=8000, shards=4, timeout=600),
+    quick=dict(checks=5000, shards=4, timeout=600),
     thorough=dict(checks=120000, shards=16, timeout=3000),
     fuzz=[("FuzzC08", 90)],
 )
@@ -77,7 +77,7 @@ PROPS["C09"] = dict(
           "Non-trivial = history with a successful remove after >=2 successful appends, or a PEM append stored as DER, or two list types, or a multi-list start state, or an AppendList/AppendDatabase; "
           "distinct by SHA-256 of (start, ops)."),
     assumptions=["ref/esl reference codec", "operation rules of props/c09 state exactly the C09 statement"],
-    quick=dict(checks=8000, shards=4, timeout=600),
+    quick=dict(checks=5000, shards=4, timeout=600),
     thorough=dict(checks=60000, shards=16, timeout=3000),
 )
 
